@@ -14,13 +14,13 @@ namespace Circle
 
 theorem translate_tl (c : Circle) (d : Pt) : (c.translate d).tl = c.tl + d := rfl
 theorem translate_d (c : Circle) (d : Pt) : (c.translate d).d = c.d := rfl
-theorem translate_boundingBox (c : Circle) (d : Pt) :
+theorem boundingBox_translate' (c : Circle) (d : Pt) :
     (c.translate d).boundingBox = c.boundingBox.translate d := rfl
-theorem translate_threshold (c : Circle) (d : Pt) : (c.translate d).threshold = c.threshold := rfl
+theorem threshold_translate' (c : Circle) (d : Pt) : (c.translate d).threshold = c.threshold := rfl
 
 theorem translate_center (c : Circle) (d : Pt) : (c.translate d).center = c.center + d := by
   unfold center
-  rw [translate_boundingBox, Rect.center_translate]
+  rw [boundingBox_translate', Rect.center_translate]
 
 theorem withCenter_add (p d : Pt) (n : Nat) : withCenter (p + d) n = (withCenter p n).translate d := by
   unfold withCenter translate
@@ -45,9 +45,9 @@ theorem translate_fillArea (st : PrimStyle) (c : Circle) (d : Pt) :
 theorem translate_styledBoundingBox (st : PrimStyle) (c : Circle) (d : Pt) :
     (c.translate d).styledBoundingBox st = (c.styledBoundingBox st).translate d := by
   unfold styledBoundingBox
-  rw [translate_boundingBox, Rect.offset_translate]
+  rw [boundingBox_translate', Rect.offset_translate]
 
-theorem translate_center2x (c : Circle) (d : Pt) :
+theorem center2x_translate' (c : Circle) (d : Pt) :
     (c.translate d).center2x = ⟨c.center2x.x + 2 * d.x, c.center2x.y + 2 * d.y⟩ := by
   rw [Pt.ext_iff']
   simp only [center2x, translate, Pt.add_x, Pt.add_y]
@@ -93,9 +93,9 @@ theorem translate_inRange_iff (c : Circle) (d : Pt) :
 
 theorem scanlines_translate {c : Circle} {d : Pt} (h : c.InRange) (h' : (c.translate d).InRange) :
     (c.translate d).scanlines = c.scanlines.shift d := by
-  rw [scanlines_eq h', scanlines_eq h, translate_center2x]
+  rw [scanlines_eq h', scanlines_eq h, center2x_translate']
   unfold ScanlinesIt.shift
-  simp only [translate_tl, translate_d, translate_threshold, Pt.add_x, Pt.add_y,
+  simp only [translate_tl, translate_d, threshold_translate', Pt.add_x, Pt.add_y,
     ScanlinesIt.mk.injEq, and_true, true_and]
   refine ⟨?_, ?_⟩ <;> omega
 
@@ -125,7 +125,7 @@ theorem styledScanlines_toList_translate {S F : Circle} {d : Pt} (h : S.InRange)
   rw [StyledScanlinesIt.toList_eq, StyledScanlinesIt.toList_eq]
   unfold styledScanlines
   dsimp only
-  rw [scanlines_toList_translate h h', List.map_map, List.map_map, translate_threshold,
+  rw [scanlines_toList_translate h h', List.map_map, List.map_map, threshold_translate',
     scanlines_translate h h']
   apply List.map_congr_left
   intro s _
